@@ -1,4 +1,4 @@
-CONSTANTS MaxC = 2  MaxP = 2  RxCap = 2  TxCap = 1
+CONSTANTS MaxC = 3  MaxP = 3  RxCap = 2  TxCap = 2
 CONSTANT RoomRule = TRUE
 SPECIFICATION Spec
 INVARIANTS TypeOK DeliveredPrefix AckOnlyAfterReceipt CentralGotPrefix DeliveredAfterAck RxCounterInStep TxCounterInStep
